@@ -507,7 +507,8 @@ func c12GenOpt(t *rapid.T, kind string, pool []string) vOpt {
 	case "mtu":
 		return vOpt{Kind: kind, MTU: rapid.SampledFrom([]uint32{1280, 1500, 9000, 1280, 1500, 1, 1499, 1501, 65535, 65536, 4294967295}).Draw(t, "mtu")}
 	case "cp":
-		return vOpt{Kind: kind, URI: rapid.SampledFrom([]string{"https://a.example/", "https://b.example/", "urn:ietf:params:capport:unrestricted", "https://A.example/"}).Draw(t, "uri")}
+		return vOpt{Kind: kind, URI: rapid.SampledFrom([]string{"https://a.example/", "https://b.example/", "urn:ietf:params:capport:unrestricted", "https://A.example/",
+			"https://a.example/#", "HTTPS://a.example/", "https://a.example", "https://a.example/%7e", "https://a.example/~"}).Draw(t, "uri")}
 	case "lla":
 		return vOpt{Kind: kind, MTU: uint32(rapid.IntRange(1, 3).Draw(t, "mac"))}
 	case "pref64":
